@@ -414,14 +414,15 @@ def history_case(draw, shard, tier):
         if d.int(0, 4) == 0:
             # the caller goes on working with something he was handed: propagates it, tabulates from it
             ops.append(dict(op="use", how=d.pick("propagate", "iter", "ephem", "propagate-same"), idx=d.int(0, 11),
-                            k=d.pick(0, 1, -1, 2)))
+                            k=d.pick(0, 1, -1, 2), clone=d.pick("none", "none", "pickle", "copy()", "copy.copy", "deepcopy")))
     if d.int(0, 2) == 0:
         # a typical session: get the state, bring it to one's working frame, propagate / tabulate from it,
         # then ask again for the very first date
         k0 = d.pick(0, 0, 1, -1)
         ops = [dict(op="query", k=k0),
                dict(op="mutate", what=d.pick("frame:EME2000", "frame:MOD", "scale", "form:spherical"), idx=-1),
-               dict(op="use", how=d.pick("propagate", "iter", "ephem", "propagate-same"), idx=-1, k=d.pick(1, 2, 0)),
+               dict(op="use", how=d.pick("propagate", "iter", "ephem", "propagate-same"), idx=-1, k=d.pick(1, 2, 0),
+                    clone=d.pick("none", "none", "pickle", "copy()", "deepcopy")),
                dict(op="query", k=k0)] + ops
     if not any(o["op"] == "query" for o in ops):
         ops.append(dict(op="query", k=0))
@@ -485,12 +486,15 @@ def check_history(case):
         warm.propagate(date_of(-19))
     first = {}  # k -> (values, frame name, form name) of the first answer in this history
     handed = []  # every object the library handed out
+    touched = set()  # ... those the caller changed in place
     worst = 0.0
     cls = set()
     for n, op in enumerate(case["ops"]):
         if op["op"] == "mutate":
             if handed:
-                _mutate(handed[op["idx"] if op["idx"] < 0 else op["idx"] % len(handed)], op["what"], date_of(7))
+                tgt = handed[op["idx"] if op["idx"] < 0 else op["idx"] % len(handed)]
+                _mutate(tgt, op["what"], date_of(7))
+                touched.add(id(tgt))
                 cls.add("mutated:" + op["what"].split(":")[0])
             continue
         if op["op"] == "use":
@@ -498,6 +502,34 @@ def check_history(case):
             # body's propagator; what comes out is not judged here, later queries and conversions are
             if handed:
                 obj = handed[op["idx"] if op["idx"] < 0 else op["idx"] % len(handed)]
+                pristine = id(obj) not in touched
+                how_clone = op.get("clone", "none")
+                if how_clone != "none":
+                    # ... or a copy of it that travelled (to a worker process and back, into a container)
+                    import copy
+                    import pickle
+
+                    obj = {"pickle": lambda o: pickle.loads(pickle.dumps(o)), "copy()": lambda o: o.copy(),
+                           "copy.copy": copy.copy, "deepcopy": copy.deepcopy}[how_clone](obj)
+                    cls.add("used-clone:" + how_clone)
+                if pristine and op["how"] in ("propagate", "iter"):
+                    # an object nobody changed is the body's own state: extrapolated, it is the body at the other date
+                    if op["how"] == "propagate":
+                        out = obj.propagate(date_of(op["k"]))
+                        want_d = date_of(op["k"])
+                    else:
+                        out = list(obj.iter(start=obj.date, stop=timedelta(days=2 * step), step=timedelta(days=step)))[-1]
+                        want_d = out.date  # (in UT1, the Sun's native label, start + 2 steps need not be the stop)
+                    ref_ = ask(want_d)
+                    a_ = np.asarray(out.copy(frame=ref_.frame, form="cartesian").base, float)
+                    b_ = np.asarray(ref_.copy(form="cartesian").base, float)
+                    if not np.all(np.isfinite(a_)) or float(np.linalg.norm(a_[:3] - b_[:3])) > 1e-3 + 1e-12 * float(np.linalg.norm(b_[:3])) \
+                            or float(np.linalg.norm(a_[3:] - b_[3:])) > 1e-6 + 1e-12 * float(np.linalg.norm(b_[3:])):
+                        fail("history-use", f"step {n + 1} ({name}): a state handed out earlier"
+                             + (f", cloned by {how_clone}," if how_clone != "none" else "")
+                             + f" and extrapolated by {op['how']} to {want_d} gives {a_.tolist()}, the body is at {b_.tolist()}")
+                    cls.add("used-judged")
+                    continue
                 try:
                     if op["how"] == "propagate":
                         obj.propagate(date_of(op["k"]))
